@@ -91,6 +91,81 @@ func Gen(r *vh.Rng, class string) Scenario {
 		for i := n - 3; i < n; i++ {
 			sc.Blocks[i].Ctx = 0
 		}
+	case "retry":
+		// Failed submissions are resubmitted later with IDENTICAL arguments:
+		// immediately, after 1..k successful submissions of other blocks,
+		// after further failures, and several times.  Phase 1: nobody reads
+		// Results(), contexts are cancelled or expire after 1-4 ms, so some
+		// Submits fail; an attempt may be retried at once.  Phase 2 (consumer
+		// running): k fresh blocks, then retries of every phase-1 block (most
+		// recent failure first or in random order; skipped at run time if the
+		// block got through meanwhile), interleaved with fresh blocks.
+		sc.Submitters = 1
+		sc.Cap = 1 + r.Intn(2)
+		sc.ND = 1 + r.Intn(2)
+		if sc.NV > 0 {
+			sc.NV = 1 + r.Intn(2)
+		}
+		sc.MaxP = 0
+		sc.PauseResults = true
+		n1 := 6 + r.Intn(8)
+		base := blocks(r, n1, 20)
+		var bs []Block
+		var roots []int // indices (in bs) of phase-1 first attempts
+		for _, b := range base {
+			b.Ctx, b.TimeoutMs = 2, 1+r.Intn(4)
+			if r.Chance(1, 4) {
+				b.Ctx = 1
+			}
+			bs = append(bs, b)
+			roots = append(roots, len(bs)-1)
+			if r.Chance(1, 4) { // immediate retry, may fail again
+				rb := b
+				rb.Retry = len(bs)
+				bs = append(bs, rb)
+			}
+		}
+		sc.PauseUntil = len(bs)
+		fresh := func() {
+			b := blocks(r, 1, 20)[0]
+			bs = append(bs, b)
+		}
+		for k := r.Intn(4); k > 0; k-- {
+			fresh()
+		}
+		order := append([]int(nil), roots...)
+		if r.Bool() {
+			for i, j := 0, len(order)-1; i < j; i, j = i+1, j-1 {
+				order[i], order[j] = order[j], order[i]
+			}
+		} else {
+			for i := len(order) - 1; i > 0; i-- {
+				j := r.Intn(i + 1)
+				order[i], order[j] = order[j], order[i]
+			}
+		}
+		for _, root := range order {
+			rb := bs[root]
+			rb.Retry = root + 1
+			rb.Ctx, rb.TimeoutMs = 0, 0
+			if r.Chance(1, 5) { // a retry that may fail again, followed by a final one
+				rb.Ctx, rb.TimeoutMs = 2, 1+r.Intn(3)
+				bs = append(bs, rb)
+				if r.Bool() {
+					fresh()
+				}
+				rb.Ctx, rb.TimeoutMs = 0, 0
+			}
+			bs = append(bs, rb)
+			if r.Chance(1, 3) {
+				fresh()
+			}
+			if r.Chance(1, 6) { // once more (skipped: it has succeeded by now)
+				bs = append(bs, rb)
+			}
+		}
+		fresh()
+		sc.Blocks = bs
 	case "drain":
 		sc.Submitters = 1
 		sc.Jitter = 0
@@ -155,7 +230,7 @@ func runOne(c *vh.Ctx, cf *vh.CaseFile, sc Scenario) {
 // the scenario classes and their weights.
 func Main(property string, mix map[string]int, quick, thorough int) {
 	run := func(c *vh.Ctx) error {
-		c.Res.Rule = "one case = one run of the real BlockPipeline (classes plain/stop/expiry/drain: 1..16 decode and validate workers, buffer 1..6 or 1000, 4..31 valid/undecodable/invalid blocks, 1..3 concurrent submitters, hook-level jitter, Stop or parent cancellation at a random point, expired Submit contexts under backpressure, items held inside decode/validate/apply workers while WaitForDrain runs); distinct by the full label history; non-trivial = at least 2 ApplyFunc calls and 40 labels"
+		c.Res.Rule = "one case = one run of the real BlockPipeline (classes plain/stop/expiry/retry/drain: 1..16 decode and validate workers, buffer 1..6 or 1000, 4..31 valid/undecodable/invalid blocks, 1..3 concurrent submitters, hook-level jitter, Stop or parent cancellation at a random point, expired Submit contexts under backpressure, failed submissions resubmitted with identical arguments at once / after other successful submissions / repeatedly, items held inside decode/validate/apply workers while WaitForDrain runs); distinct by the full label history; non-trivial = at least 2 ApplyFunc calls and 40 labels"
 		c.Res.Modelled = []string{
 			"the pipeline LTS coq/C42/Model.v is hand-written from pipeline/*.go (fixed tree) and validated by replaying every recorded history through step",
 			"channels are modelled as bounded bags (no FIFO order); the replay uses capacity + one slot per goroutine because send stamps are taken before and receive stamps after the channel operation",
@@ -198,6 +273,19 @@ func Main(property string, mix map[string]int, quick, thorough int) {
 			exp.Blocks = append(exp.Blocks, b)
 		}
 		runOne(c, cf, exp)
+		// a block whose Submit timed out is resubmitted with identical arguments only
+		// after another block got through (retry-cache seed): 9 attempts under
+		// backpressure, one fresh block, then the failed ones again, newest first
+		rt := Scenario{Class: "retry", ND: 1, Cap: 1, StopAfter: -1, Submitters: 1, Seed: 3, PauseResults: true, PauseUntil: 9}
+		for i := 0; i < 9; i++ {
+			rt.Blocks = append(rt.Blocks, Block{Decodes: true, Valid: true, Ctx: 2, TimeoutMs: 5})
+		}
+		rt.Blocks = append(rt.Blocks, Block{Decodes: true, Valid: true})
+		for i := 8; i >= 0; i-- {
+			rt.Blocks = append(rt.Blocks, Block{Decodes: true, Valid: true, Retry: i + 1})
+		}
+		rt.Blocks = append(rt.Blocks, Block{Decodes: true, Valid: true}, Block{Decodes: true, Valid: true})
+		runOne(c, cf, rt)
 		n := c.Pick(quick, thorough)
 		for i := 0; i < n; i++ {
 			runOne(c, cf, Gen(c.Rng, classes[c.Rng.Intn(len(classes))]))
